@@ -14,9 +14,10 @@ if go test -vet=off -count=1 ./... >/tmp/seed_suite.log 2>&1; then echo "suite w
 mv /tmp/seed_aside/demo_saved "$DEMO"
 PKG=./$(dirname "$DEMO")
 if go test -vet=off -count=1 -run 'Demo' $PKG >/tmp/seed_demo1.log 2>&1; then echo "demo with change: PASS (unexpected)"; else echo "demo with change: FAIL (expected)"; fi
-git stash push -q -- $(git diff --name-only) 
+git diff > /tmp/seed_change.diff
+git apply -R /tmp/seed_change.diff
 if go test -vet=off -count=1 -run 'Demo' $PKG >/tmp/seed_demo2.log 2>&1; then echo "demo without change: PASS (expected)"; else echo "demo without change: FAIL (unexpected)"; tail -5 /tmp/seed_demo2.log; fi
-git stash pop -q
+git apply /tmp/seed_change.diff
 D=/verif/seeded/$NAME; mkdir -p $D
 git diff > $D/patch.diff
 cp "$DEMO" $D/
